@@ -1,0 +1,197 @@
+//go:build verif
+
+package jsonrpc2
+
+import (
+	"encoding/hex"
+	"path/filepath"
+	"runtime"
+	"sort"
+	"strconv"
+	"sync"
+)
+
+// This file exists only in builds with the tag "verif". It records, for every
+// call of updateInFlight, the abstract state of the connection before and after
+// the call (both taken while stateMu is held), so that a checker can compare
+// real executions with a model of the in-flight state machine.
+
+// VerifOutgoing is one entry of inFlightState.outgoingCalls.
+type VerifOutgoing struct {
+	Key    ID         // map key
+	Call   *AsyncCall // identity of the call object
+	CallID ID         // Call.id
+	Ready  bool       // Call.ready is closed (the call has been retired)
+	RespID ID         // Call.response.ID if Ready
+}
+
+// VerifIncoming is one incoming request (entry of incomingByID or handlerQueue).
+type VerifIncoming struct {
+	Key   ID  // map key (invalid for queue entries)
+	Req   any // identity of the *incomingRequest
+	ReqID ID  // the request's current ID (invalid for notifications)
+}
+
+// VerifState is the abstract value of inFlightState plus the state of c.done.
+type VerifState struct {
+	ConnClosing    bool
+	Reading        bool
+	ReadErr        bool // readErr != nil
+	WriteErr       bool // writeErr != nil
+	CloserOpen     bool // closer != nil
+	Done           bool // c.done is closed
+	HandlerRunning bool
+	OutNotif       int
+	Incoming       int
+	Outgoing       []VerifOutgoing // sorted by VerifIDString(Key)
+	ByID           []VerifIncoming // sorted by VerifIDString(Key)
+	Queue          []VerifIncoming // in queue order
+}
+
+// VerifRecord describes one call of updateInFlight.
+type VerifRecord struct {
+	Conn    *Connection
+	Seq     int    // 0,1,2,... per connection, in the order of stateMu acquisition
+	Site    string // "file.go:line" of the caller of updateInFlight
+	Func    string // name of the calling function
+	Pre     VerifState
+	Post    VerifState
+	Retired []VerifOutgoing // entries of Pre.Outgoing whose call is ready after the update
+	Panic   any             // value of a panic leaving updateInFlight (nil: none)
+}
+
+var (
+	// VerifSink, if non-nil, receives every record. It is called with stateMu
+	// held and must not call into the Connection.
+	VerifSink func(*VerifRecord)
+	// VerifYield, if non-nil, is called (with stateMu held) at the start and at
+	// the end of every updateInFlight call; a schedule fuzzer may yield in it.
+	VerifYield func()
+
+	verifMu   sync.Mutex
+	verifSeqs = map[*Connection]int{}
+)
+
+// VerifReset forgets the per-connection sequence numbers.
+func VerifReset() {
+	verifMu.Lock()
+	verifSeqs = map[*Connection]int{}
+	verifMu.Unlock()
+}
+
+// VerifIDString is a canonical text of an ID: "-" (invalid), "i<decimal>" or "s<hex>".
+func VerifIDString(id ID) string {
+	switch v := id.value.(type) {
+	case nil:
+		return "-"
+	case int64:
+		return "i" + strconv.FormatInt(v, 10)
+	case string:
+		return "s" + hex.EncodeToString([]byte(v))
+	}
+	return "?"
+}
+
+func verifClosed(ch chan struct{}) bool {
+	select {
+	case <-ch:
+		return true
+	default:
+		return false
+	}
+}
+
+func verifOutgoing(s *inFlightState) []VerifOutgoing {
+	out := make([]VerifOutgoing, 0, len(s.outgoingCalls))
+	for k, ac := range s.outgoingCalls {
+		e := VerifOutgoing{Key: k, Call: ac}
+		if ac != nil {
+			e.CallID = ac.id
+			if verifClosed(ac.ready) {
+				e.Ready = true
+				if ac.response != nil {
+					e.RespID = ac.response.ID
+				}
+			}
+		}
+		out = append(out, e)
+	}
+	sort.Slice(out, func(i, j int) bool { return VerifIDString(out[i].Key) < VerifIDString(out[j].Key) })
+	return out
+}
+
+func verifSnapshot(c *Connection, s *inFlightState) VerifState {
+	st := VerifState{
+		ConnClosing:    s.connClosing,
+		Reading:        s.reading,
+		ReadErr:        s.readErr != nil,
+		WriteErr:       s.writeErr != nil,
+		CloserOpen:     s.closer != nil,
+		Done:           verifClosed(c.done),
+		HandlerRunning: s.handlerRunning,
+		OutNotif:       s.outgoingNotifications,
+		Incoming:       s.incoming,
+		Outgoing:       verifOutgoing(s),
+	}
+	for k, r := range s.incomingByID {
+		e := VerifIncoming{Key: k, Req: r}
+		if r != nil && r.Request != nil {
+			e.ReqID = r.ID
+		}
+		st.ByID = append(st.ByID, e)
+	}
+	sort.Slice(st.ByID, func(i, j int) bool { return VerifIDString(st.ByID[i].Key) < VerifIDString(st.ByID[j].Key) })
+	for _, r := range s.handlerQueue {
+		e := VerifIncoming{Req: r}
+		if r != nil && r.Request != nil {
+			e.ReqID = r.ID
+		}
+		st.Queue = append(st.Queue, e)
+	}
+	return st
+}
+
+// verifTrace is called by updateInFlight (with stateMu held) before the update;
+// the function it returns is deferred and runs after the update, still under stateMu.
+func verifTrace(c *Connection, s *inFlightState) func() {
+	if VerifSink == nil && VerifYield == nil {
+		return func() {}
+	}
+	if y := VerifYield; y != nil {
+		y()
+	}
+	rec := &VerifRecord{Conn: c, Pre: verifSnapshot(c, s)}
+	if pc, file, line, ok := runtime.Caller(2); ok {
+		rec.Site = filepath.Base(file) + ":" + strconv.Itoa(line)
+		if fn := runtime.FuncForPC(pc); fn != nil {
+			rec.Func = fn.Name()
+		}
+	}
+	verifMu.Lock()
+	rec.Seq = verifSeqs[c]
+	verifSeqs[c] = rec.Seq + 1
+	verifMu.Unlock()
+	return func() {
+		p := recover()
+		rec.Panic = p
+		rec.Post = verifSnapshot(c, s)
+		for _, e := range rec.Pre.Outgoing {
+			if e.Call != nil && verifClosed(e.Call.ready) {
+				e.Ready = true
+				if e.Call.response != nil {
+					e.RespID = e.Call.response.ID
+				}
+				rec.Retired = append(rec.Retired, e)
+			}
+		}
+		if sink := VerifSink; sink != nil {
+			sink(rec)
+		}
+		if y := VerifYield; y != nil {
+			y()
+		}
+		if p != nil {
+			panic(p)
+		}
+	}
+}
